@@ -85,8 +85,8 @@ func C01(r *core.Run) {
 	defer md.Close()
 
 	rng := r.Rand("c01")
-	rounds := r.Pick(4, 24)
-	perClient := r.Pick(12, 40)
+	rounds := r.Pick(5, 30)
+	perClient := r.Pick(40, 60)
 	levels := []int{1, 4, 16, 64, 128}
 	reqSizes := []int{0, 0, 1, 100, 4096, 65537, 256 << 10}
 	respSizes := []int{0, 1, 100, 4095, 4097, 40000, 256 << 10}
@@ -116,9 +116,9 @@ func C01(r *core.Run) {
 			aborted       bool
 		}
 		type plan struct {
-			tok, method                 string
-			respSize, delay, reqSize    int
-			abort                       bool
+			Tok, Method              string
+			RespSize, Delay, ReqSize int
+			Abort                    bool
 		}
 		plans := make([][]plan, K)
 		n := perClient
@@ -127,20 +127,20 @@ func C01(r *core.Run) {
 		}
 		for c := 0; c < K; c++ {
 			for i := 0; i < n; i++ {
-				p := plan{tok: fmt.Sprintf("s%dr%dc%di%d", r.Seed, round, c, i), method: "GET"}
+				p := plan{Tok: fmt.Sprintf("s%dr%dc%di%d", r.Seed, round, c, i), Method: "GET"}
 				if rng.Intn(2) == 0 {
-					p.method = "POST"
-					p.reqSize = reqSizes[rng.Intn(len(reqSizes))]
+					p.Method = "POST"
+					p.ReqSize = reqSizes[rng.Intn(len(reqSizes))]
 				}
-				p.respSize = respSizes[rng.Intn(len(respSizes))]
-				if p.respSize > 300<<10 && K > 16 {
-					p.respSize = 40000
+				p.RespSize = respSizes[rng.Intn(len(respSizes))]
+				if p.RespSize > 300<<10 && K > 16 {
+					p.RespSize = 40000
 				}
-				if p.reqSize > 300<<10 && K > 16 {
-					p.reqSize = 65537
+				if p.ReqSize > 300<<10 && K > 16 {
+					p.ReqSize = 65537
 				}
-				p.delay = []int{0, 0, 1, 5, 20, 50}[rng.Intn(6)]
-				p.abort = rng.Intn(25) == 0
+				p.Delay = []int{0, 0, 1, 5, 20, 50}[rng.Intn(6)]
+				p.Abort = rng.Intn(25) == 0
 				plans[c] = append(plans[c], p)
 			}
 		}
@@ -163,26 +163,26 @@ func C01(r *core.Run) {
 						}
 					}
 					var body []byte
-					if p.method == "POST" {
-						body = tokBytes(p.tok, "req", p.reqSize)
+					if p.Method == "POST" {
+						body = tokBytes(p.Tok, "req", p.ReqSize)
 					}
-					raw := tokRequest(p.method, p.tok, p.respSize, p.delay, "h"+p.tok+".example", body, nil)
-					if p.abort {
+					raw := tokRequest(p.Method, p.Tok, p.RespSize, p.Delay, "h"+p.Tok+".example", body, nil)
+					if p.Abort {
 						// send and walk away: the response must reach nobody else
 						if conn, err := net.DialTimeout("tcp", t.addr, 5*time.Second); err == nil {
 							conn.Write(raw)
-							time.Sleep(time.Duration(p.delay%3) * time.Millisecond)
+							time.Sleep(time.Duration(p.Delay%3) * time.Millisecond)
 							conn.Close()
 						}
 						mu.Lock()
-						results = append(results, result{tok: p.tok, method: p.method, size: p.respSize, reqSize: p.reqSize, aborted: true})
+						results = append(results, result{tok: p.Tok, method: p.Method, size: p.RespSize, reqSize: p.ReqSize, aborted: true})
 						mu.Unlock()
 						continue
 					}
-					m, err := cl.Do(raw, p.method)
-					res := result{tok: p.tok, method: p.method, size: p.respSize, reqSize: p.reqSize, err: err}
+					m, err := cl.Do(raw, p.Method)
+					res := result{tok: p.Tok, method: p.Method, size: p.RespSize, reqSize: p.ReqSize, err: err}
 					if err == nil {
-						res.bad = checkTokResponse(m, p.method, p.tok, p.respSize)
+						res.bad = checkTokResponse(m, p.Method, p.Tok, p.RespSize)
 					}
 					mu.Lock()
 					results = append(results, res)
